@@ -81,15 +81,19 @@ impl World {
         self.mtime += 7;
         // every write gets a modification time that no earlier write had, alternately later and *earlier* than the
         // time before (files restored from a backup, cp -p, rsync -t: a changed file need not look newer)
-        let n = self.mtime - 1_000_000_000;
-        let stamp = if (n / 7) % 2 == 0 { 1_000_000_000 + n } else { 1_000_000_000 - n };
+        // ... and most of them differ from their neighbours by a tenth of a second only (sub-second resolution matters)
+        let k = (self.mtime - 1_000_000_000) / 7; // 1, 2, 3, ...
+        let tenths = k * if k % 5 == 0 { 37 } else { 1 };
+        let base = Duration::from_secs(1_000_000_000);
+        let delta = Duration::from_millis(tenths * 100);
+        let stamp = if k % 2 == 0 { base + delta } else { base - delta };
         let tmp = self.root.join(format!(".tmp-{}", self.mtime));
         std::fs::write(&tmp, bytes)?;
         if !cfg!(miri) {
             // (Miri has no futimens: under Miri the files keep their real modification times and the staleness
             // oracle is switched off; Miri judges memory safety and data races only)
             let f = std::fs::File::options().write(true).open(&tmp)?;
-            f.set_modified(SystemTime::UNIX_EPOCH + Duration::from_secs(stamp))?;
+            f.set_modified(SystemTime::UNIX_EPOCH + stamp)?;
             drop(f);
         }
         std::fs::rename(&tmp, &path)
